@@ -376,6 +376,12 @@ func (cur *FieldMask) GetPath(desc *thrift_reflection.TypeDescriptor, path strin
 				if !cur.All() {
 					return nil, false
 				}
+				// NOTICE: for *, just pick first field desc for next loop (same as addPath)
+				fs := st.GetFields()
+				if len(fs) == 0 {
+					return nil, false
+				}
+				f = fs[0]
 			} else {
 				return nil, false
 			}
